@@ -151,7 +151,9 @@ Section SigConv.
     | RParams _ _ => is_kind KParams t
     | RArgs _ => is_kind KArgs t
     | RParenArgs _ => is_kind KArgs t && paren_args_only (children t)
-    | RFuncArgs _ ti => is_kind KArgs t && match ti with NotTable => true | _ => false end
+    | RFuncArgs _ ti =>
+        is_kind KArgs t &&
+        match ti with NotTable => true | TableNoCols => aslist_ok (children t) | TableCols _ => table_eq (children t) end
     | RImportItemPath _ => is_kind KImportItemPath t
     | RImportItemRenamed _ => is_kind KRenamedImportItem t
     end.
@@ -1995,6 +1997,213 @@ Section SigConv.
         eapply post_bind; [apply cons_convert_dot_chain; exact Hcg|]. intros d Hd. apply post_ret. exact Hd.
   Qed.
 
+  (* ---------- the table layouts of an argument list ---------- *)
+  Section Tables.
+    Variable kids : list bundle.
+    Hypothesis Hgood : Forall sgood kids.
+    Hypothesis Hscope : Forall (fun b => sc (bt b) = true) kids.
+
+    Lemma psigs_snoc its x : psigs (its ++ [x]) = psigs its ++ psig x.
+    Proof. rewrite psigs_app. unfold psigs at 2. cbn. rewrite app_nil_r. reflexivity. Qed.
+    Definition pw_all (its : list plain_item) : Prop := Forall (fun it => pwsig it = true) its.
+    Lemma pw_snoc its x : pw_all its -> pwsig x = true -> pw_all (its ++ [x]).
+    Proof. intros H Hx. apply Forall_app. split; [exact H|constructor; [exact Hx|constructor]]. Qed.
+
+    Lemma psigs_pop r : psigs (rev (pop_plain_linebreaks_rev r)) = psigs (rev r).
+    Proof.
+      induction r as [|x r IH]; [reflexivity|]. destruct x; try reflexivity.
+      cbn [pop_plain_linebreaks_rev rev]. rewrite IH, psigs_snoc. cbn [psig]. rewrite app_nil_r. reflexivity.
+    Qed.
+    Lemma pop_plain_incl r : incl (pop_plain_linebreaks_rev r) r.
+    Proof. induction r as [|x r IH]; [apply incl_refl|]. destruct x; try apply incl_refl. cbn. apply incl_tl. exact IH. Qed.
+
+    Lemma plain_process_sig c nodes :
+      Forall sgood nodes -> Forall (fun b => sc (bt b) = true) nodes ->
+      forallb (fun c => kind_eqb (kind_of c) KComma || kind_eqb (kind_of c) KSpace || is_comment_node c || is_arg c || sig_empty c)
+              (map bt nodes) = true ->
+      post (plain_process swidth cfg c nodes (opt_conv is_arg convert_arg))
+           (fun r => psigs (fst r) = tsigs nodes /\ pw_all (fst r)).
+    Proof.
+      intros Hg Hs Hcl. unfold plain_process.
+      eapply post_bind.
+      - apply (post_foldM_sig _ (fun st : list plain_item * bool => psigs (fst st)) (fun b => tsig (bt b)) (fun st => pw_all (fst st))); [constructor|].
+        intros [its ml] b Hin Hw. cbn [fst] in *. rewrite Forall_forall in Hg, Hs.
+        pose proof (Hg b Hin) as Hsg. pose proof (Hs b Hin) as Hsb.
+        pose proof (proj1 (forallb_forall _ _) Hcl (bt b) (in_map bt _ _ Hin)) as Hk. cbn beta in Hk.
+        assert (Hdef : kind_eqb (kind_of (bt b)) KComma = false -> kind_eqb (kind_of (bt b)) KSpace = false -> is_comment_node (bt b) = false ->
+                       post (o <- opt_conv is_arg convert_arg c b ;;
+                             match o with Some d => ret (its ++ [PItem d], ml) | None => ret (its, ml) end)
+                            (fun s' => psigs (fst s') = psigs its ++ tsig (bt b) /\ pw_all (fst s'))).
+        { intros E1 E2 E3. rewrite E1, E2, E3 in Hk. cbn [orb] in Hk. unfold opt_conv.
+          destruct (is_arg (bt b)) eqn:Ea.
+          - apply (post_bind _ _ (fun o => exists d, o = Some d /\ good_doc (tsig (bt b)) d)).
+            + eapply post_bind; [destruct (arg_shape c b) as (r & -> & Hfit); apply (sgood_call b r Hsg Hsb Hfit)|].
+              intros d Hd. apply post_ret. exists d. auto.
+            + intros o (d & -> & [Hd Wd]). apply post_ret. cbn [fst]. rewrite psigs_snoc. cbn [psig]. rewrite Hd.
+              split; [reflexivity|apply pw_snoc; assumption].
+          - apply (post_bind _ _ (fun o => o = None)); [apply post_ret; reflexivity|]. intros o ->. apply post_ret. cbn [fst].
+            cbn [orb] in Hk. unfold sig_empty in Hk. destruct (tsig (bt b)); [rewrite app_nil_r; auto|discriminate]. }
+        unfold bk, tx. destruct (kind_of (bt b)) eqn:Ekb;
+          lazymatch type of Ekb with
+          | _ = KComma => apply post_ret; cbn [fst]; rewrite psigs_snoc; cbn [psig]; rewrite (sc_quiet _ Hsb) by (rewrite Ekb; reflexivity);
+                          split; [reflexivity|apply pw_snoc; [exact Hw|reflexivity]]
+          | _ = KSpace =>
+              rewrite (sc_quiet _ Hsb) by (rewrite Ekb; reflexivity);
+              destruct (0 <? _); [destruct its; apply post_ret; cbn [fst]; rewrite ?psigs_snoc; cbn [psig]; rewrite ?app_nil_r;
+                                  (split; [reflexivity|try apply pw_snoc; auto])
+                                 |apply post_ret; cbn [fst]; rewrite app_nil_r; auto]
+          | _ = KLineComment =>
+              eapply post_bind; [apply post_comment; [exact Hsb|unfold is_comment_b, is_comment_node; rewrite Ekb; reflexivity]|];
+              intros d [Hd Wd]; apply post_ret; cbn [fst]; rewrite psigs_snoc; cbn [psig]; rewrite Hd; split; [reflexivity|apply pw_snoc; assumption]
+          | _ = KBlockComment =>
+              eapply post_bind; [apply post_comment; [exact Hsb|unfold is_comment_b, is_comment_node; rewrite Ekb; reflexivity]|];
+              intros d [Hd Wd]; apply post_ret; cbn [fst]; rewrite psigs_snoc; cbn [psig]; rewrite Hd; split; [reflexivity|apply pw_snoc; assumption]
+          | _ => apply Hdef; unfold is_comment_node; rewrite ?Ekb; reflexivity
+          end.
+      - intros [its ml] [E W]. cbn [fst] in *. apply post_ret. cbn [fst]. change (psigs []) with (@nil N) in E. cbn [app] in E.
+        split; [rewrite psigs_pop, rev_involutive; exact E|].
+        unfold pw_all in *. rewrite Forall_forall in *. intros x Hx. apply W. apply in_rev in Hx. apply pop_plain_incl in Hx. apply in_rev. exact Hx.
+    Qed.
+
+    Lemma aslist_slice_map : map bt (if has_parenthesized_args kids then take_until_rparen (skip_until KLeftParen kids) else []) = aslist_slice (map bt kids).
+    Proof. unfold aslist_slice. rewrite <- has_paren_map. destruct (has_parenthesized_args kids); [rewrite take_until_map, skip_until_map; reflexivity|reflexivity]. Qed.
+
+    Lemma extra_map (hp : bool) : map bt (filter (fun b => kind_eqb (bk b) KContentBlock) (skip_until (if hp then KRightParen else KContentBlock) kids)) =
+                         filter (fun b => kind_eqb (kind_of b) KContentBlock) (skip_until_t (if hp then KRightParen else KContentBlock) (map bt kids)).
+    Proof. rewrite <- skip_until_map. apply (filter_map_bt (fun b => kind_eqb (kind_of b) KContentBlock)). Qed.
+
+    Lemma cons_as_list c :
+      forallb (fun c => kind_eqb (kind_of c) KComma || kind_eqb (kind_of c) KSpace || is_comment_node c || is_arg c || sig_empty c)
+              (take_until_rparen_t (skip_until_t KLeftParen (map bt kids))) = true ->
+      post (convert_parenthesized_args_as_list swidth cfg kids c) (good_doc (tsigs (take_until_rparen (skip_until KLeftParen kids)))).
+    Proof.
+      intros Hcl. unfold convert_parenthesized_args_as_list.
+      eapply post_bind.
+      - apply plain_process_sig; [apply Forall_take_until, Forall_skip_until; exact Hgood|apply Forall_take_until, Forall_skip_until; exact Hscope|].
+        rewrite take_until_map, skip_until_map. exact Hcl.
+      - intros [its ml] [E W]. cbn [fst] in *. apply post_ret. destruct (plain_print_sig swidth its ml) as [Hd Hw]. split.
+        + rewrite dsig_enclose, dsig_nest, !dsig_text, Hd, E. cbn. rewrite app_nil_r. reflexivity.
+        + apply wsig_enclose; try apply wsig_text. rewrite wsig_nest. apply Hw. exact W.
+    Qed.
+
+    (* convert_table: the rows are the positional arguments in order, whatever the number of columns *)
+    Lemma table_rows_concat (columns : N) (pos : list bundle) :
+      let step := fun (st : list (list bundle) * list bundle) (arg : bundle) =>
+        let '(table, row) := st in
+        let row1 := row ++ [arg] in
+        let '(table1, row2) := if N.of_nat (length row1) =? columns then (table ++ [row1], []) else (table, row1) in
+        if kind_eqb (bk arg) KFuncCall && str_in (callee_text_of_call arg) HEADER_FOOTER
+        then (table1 ++ [row2], []) else (table1, row2) in
+      forall st, concat (fst (fold_left step pos st)) ++ snd (fold_left step pos st) = concat (fst st) ++ snd st ++ pos.
+    Proof.
+      intros step. induction pos as [|a pos IH]; intros [table row]; cbn [fold_left fst snd].
+      - rewrite app_nil_r. reflexivity.
+      - rewrite IH.
+        assert (Hs : concat (fst (step (table, row) a)) ++ snd (step (table, row) a) = concat table ++ row ++ [a]).
+        { unfold step. cbv beta iota zeta.
+          destruct (N.of_nat (length (row ++ [a])) =? columns);
+            match goal with |- context [if ?b then _ else _] => destruct b end; cbn [fst snd];
+            rewrite ?concat_app; cbn [concat]; rewrite ?app_nil_r, <- ?app_assoc; reflexivity. }
+        rewrite app_assoc, Hs, <- !app_assoc. reflexivity.
+    Qed.
+
+    Lemma cons_convert_table c n :
+      post (convert_table swidth cfg kids c n)
+           (good_doc (tsigs (filter (fun b => kind_eqb (bk b) KNamed) (filter (fun b => is_arg (bt b)) kids)) ++
+                      tsigs (filter (fun b => is_arg (bt b) && negb (kin (bk b) [KNamed; KSpread])) (take_until_rparen kids)))).
+    Proof.
+      unfold convert_table.
+      set (named := filter (fun b => kind_eqb (bk b) KNamed) (filter (fun b => is_arg (bt b)) kids)).
+      set (pos := filter (fun b => is_arg (bt b) && negb (kin (bk b) [KNamed; KSpread])) (take_until_rparen kids)).
+      assert (Hnamed : Forall (fun b => sgood b /\ sc (bt b) = true /\ kind_eqb (bk b) KNamed = true) named).
+      { unfold named. apply Forall_forall. intros b Hin. apply filter_In in Hin. destruct Hin as [Hin Hk]. apply filter_In in Hin. destruct Hin as [Hin _].
+        rewrite Forall_forall in Hgood, Hscope. auto. }
+      assert (Hpos : Forall (fun b => sgood b /\ sc (bt b) = true) pos).
+      { unfold pos. apply Forall_filter. apply Forall_take_until. apply Forall_forall. intros b Hin. rewrite Forall_forall in Hgood, Hscope. auto. }
+      clearbody named pos.
+      apply (post_bind _ _ (good_doc (tsigs named))).
+      { eapply post_weaken.
+        - apply (post_foldM_sig _ dsig (fun b => tsig (bt b)) (fun d => wsig d = true)); [reflexivity|].
+          intros d b Hin Hw. rewrite Forall_forall in Hnamed. destruct (Hnamed b Hin) as (Hsg & Hsb & Hk).
+          eapply post_bind; [apply (sgood_call b (RNamed _) Hsg Hsb Hk)|]. intros x [Hx Wx]. apply post_ret.
+          rewrite !dsig_append, dsig_text, Hx. cbn. rewrite !app_nil_r. split; [reflexivity|].
+          apply wsig_append; [exact Hw|apply wsig_append; [apply wsig_append; [exact Wx|first [apply wsig_text|reflexivity]]|reflexivity]].
+        - intros d [E W]. split; [exact E|exact W]. }
+      intros d0 [Hd0 Wd0].
+      match goal with |- context [fold_left ?f pos ?a] =>
+        pose proof (table_rows_concat n pos a) as Hrows; cbv zeta in Hrows; set (F := fold_left f pos a) in * end.
+      cbn [fst snd concat app] in Hrows. clearbody F.
+      destruct F as [table0 lastrow]. cbn [fst snd] in Hrows.
+      set (table := match lastrow with [] => table0 | _ => table0 ++ [lastrow] end).
+      assert (Htab : concat table = pos).
+      { unfold table. destruct lastrow; [rewrite app_nil_r in Hrows; exact Hrows|]. rewrite concat_app. cbn [concat]. rewrite app_nil_r. exact Hrows. }
+      clearbody table. clear Hrows. subst pos.
+      assert (Hcells : Forall (fun row => Forall (fun b => sgood b /\ sc (bt b) = true) row) table).
+      { clear - Hpos. induction table as [|row tb IH]; [constructor|]. cbn [concat] in Hpos. apply Forall_app in Hpos. destruct Hpos. constructor; auto. }
+      apply (post_bind _ _ (fun r : doc * nat => dsig (fst r) = tsigs named ++ tsigs (concat table) /\ wsig (fst r) = true)).
+      - eapply post_weaken.
+        + apply (post_foldM_sig _ (fun st : doc * nat => dsig (fst st)) (fun row => tsigs row) (fun st => wsig (fst st) = true)); [exact Wd0|].
+          intros [d ri] row Hin Hw. cbn [fst] in *. rewrite Forall_forall in Hcells. pose proof (Hcells row Hin) as Hrow.
+          apply (post_bind _ _ (fun rr : doc * nat => dsig (fst rr) = tsigs row /\ wsig (fst rr) = true)).
+          * eapply post_weaken.
+            -- apply (post_foldM_sig _ (fun st : doc * nat => dsig (fst st)) (fun b => tsig (bt b)) (fun st => wsig (fst st) = true)); [reflexivity|].
+               intros [rd ci] cell Hinc Hwc. cbn [fst] in *. rewrite Forall_forall in Hrow. destruct (Hrow cell Hinc) as [Hsg Hsb].
+               eapply post_bind; [destruct (arg_shape (with_mode c LCodeCont) cell) as (r & -> & Hfit); apply (sgood_call cell r Hsg Hsb Hfit)|].
+               intros x [Hx Wx]. apply post_ret. cbn [fst].
+               assert (Hl : forall (b1 b2 : bool), dsig (if b1 then line else if b2 then line_ else DNil) = [] /\ wsig (if b1 then line else if b2 then line_ else DNil) = true)
+                 by (intros [] []; split; reflexivity).
+               destruct (Hl (negb (Nat.eqb (S ci) (length row))) (negb (Nat.eqb (S ri) (length table)))) as [Hl1 Hl2].
+               rewrite !dsig_append, dsig_text, Hx, Hl1. cbn. rewrite !app_nil_r. split; [reflexivity|].
+               apply wsig_append; [apply wsig_append; [apply wsig_append; [exact Hwc|exact Wx]|first [apply wsig_text|reflexivity]]|exact Hl2].
+            -- intros rr [E W]. cbn in E. unfold tsigs. auto.
+          * intros [rr k] [Hrr Wrr]. cbn [fst] in *. apply post_ret. cbn [fst]. rewrite !dsig_append, dsig_group, Hrr.
+            assert (Hh : forall b : bool, dsig (if b then hardline else DNil) = [] /\ wsig (if b then hardline else DNil) = true) by (intros []; split; reflexivity).
+            destruct (Hh (negb (Nat.eqb (S ri) (length table)))) as [Hh1 Hh2]. rewrite Hh1, app_nil_r. split; [reflexivity|].
+            apply wsig_append; [exact Hw|apply wsig_append; [rewrite wsig_group; exact Wrr|exact Hh2]].
+        + intros r [E W]. cbn [fst] in E. rewrite E, Hd0. split; [|exact W]. f_equal.
+          clear. induction table as [|row tb IH]; [reflexivity|]. cbn [map concat]. rewrite tsigs_app, IH. reflexivity.
+      - intros [r k] [E W]. cbn [fst] in *. apply post_ret. split.
+        + rewrite dsig_enclose, dsig_append, dsig_nest, !dsig_text, E. cbn. rewrite !app_nil_r. reflexivity.
+        + apply wsig_enclose; try first [apply wsig_text|reflexivity]. apply wsig_append; [rewrite wsig_nest; exact W|reflexivity].
+    Qed.
+    Lemma table_named_map : map bt (filter (fun b => kind_eqb (bk b) KNamed) (filter (fun b => is_arg (bt b)) kids)) = table_named (map bt kids).
+    Proof. unfold table_named. rewrite <- (filter_map_bt is_arg), <- (filter_map_bt (fun c => kind_eqb (kind_of c) KNamed)). reflexivity. Qed.
+    Lemma table_pos_map :
+      map bt (filter (fun b => is_arg (bt b) && negb (kin (bk b) [KNamed; KSpread])) (take_until_rparen kids)) = table_pos (map bt kids).
+    Proof.
+      unfold table_pos. rewrite <- take_until_map.
+      rewrite <- (filter_map_bt (fun c => is_arg c && negb (match kind_of c with KNamed | KSpread => true | _ => false end))).
+      f_equal. apply filter_ext. intros b. unfold bk. destruct (kind_of (bt b)); reflexivity.
+    Qed.
+
+    Lemma cons_func_call_args_cols t c n :
+      table_eq (map bt kids) = true -> margs_ok (map bt kids) = true ->
+      post (convert_func_call_args swidth cfg t kids c (TableCols n)) (good_doc (tsigs kids)).
+    Proof.
+      intros He Hm. unfold convert_func_call_args.
+      destruct (is_math_mode _); [apply cons_convert_args_in_math; assumption|].
+      unfold table_eq in He. apply (proj1 (str_eqb_eq _ _)) in He.
+      rewrite tsigl_map, <- table_named_map, <- table_pos_map, !tsigl_map in He. unfold args_extra in He.
+      rewrite <- has_paren_map, <- extra_map, tsigl_map in He. rewrite He, app_assoc.
+      eapply post_bind; [apply cons_convert_table; assumption|]. intros d Hd.
+      eapply post_bind; [apply cons_convert_additional_args; assumption|]. intros a Ha. apply post_ret. apply good_append; assumption.
+    Qed.
+
+    Lemma cons_func_call_args_nocols t c :
+      aslist_ok (map bt kids) = true -> margs_ok (map bt kids) = true ->
+      post (convert_func_call_args swidth cfg t kids c TableNoCols) (good_doc (tsigs kids)).
+    Proof.
+      intros Ha Hm. unfold convert_func_call_args.
+      destruct (is_math_mode _); [apply cons_convert_args_in_math; assumption|].
+      unfold aslist_ok in Ha. apply andb_prop in Ha. destruct Ha as [He Hcl]. apply (proj1 (str_eqb_eq _ _)) in He.
+      rewrite <- aslist_slice_map in He, Hcl. unfold args_extra in He. rewrite tsigl_map, <- has_paren_map, <- extra_map, !tsigl_map in He. rewrite He.
+      apply (post_bind _ _ (good_doc (tsigs (if has_parenthesized_args kids then take_until_rparen (skip_until KLeftParen kids) else [])))).
+      - destruct (has_parenthesized_args kids); [|apply post_ret; apply good_nil].
+        apply cons_as_list; try assumption. rewrite <- skip_until_map, <- take_until_map. exact Hcl.
+      - intros d Hd. eapply post_bind; [apply cons_convert_additional_args; assumption|]. intros a Ha'. apply post_ret. apply good_append; assumption.
+    Qed.
+  End Tables.
+
   (* ---------- field access and calls, with or without a chain ---------- *)
   Lemma cons_convert_field_access self c :
     cg self -> kind_of (bt self) = KFieldAccess ->
@@ -2052,18 +2261,27 @@ Section SigConv.
     destruct (sc_inner' _ Hs Hik) as [Hcl _]. unfold bk in Hik. rewrite Efc in Hcl. cbn [knode_ok] in Hcl. rewrite <- Hshape in Hcl.
     rewrite find_map_bt in Hcl. unfold first_kid in Hfk. rewrite Hfk in Hcl. cbn [option_map] in Hcl.
     apply andb_prop in Hcl. destruct Hcl as [Hnt _].
+    rewrite <- map_rev, (find_map_bt (fun c => kind_eqb (kind_of c) KArgs)) in Hnt.
     unfold convert_func_call. unfold first_kid. rewrite Hfk.
     assert (Hplain : post (convert_func_call_plain swidth self c) (good_doc (tsig (bt self)))).
     { unfold convert_func_call_plain, first_kid. rewrite Hfk, Heq.
       eapply post_bind; [apply (sgood_call cal (RExpr c) Hgc Hsc); reflexivity|]. intros dc Hdc.
       destruct (args_of_call self) as [a|] eqn:Ea.
       - destruct (Hargs a eq_refl) as [Hain Hak]. destruct (cg_kid self a Hg Hs ltac:(unfold bk; rewrite Efc; reflexivity) Hain) as [Hga Hsa].
-        assert (Eti : table_info_of self a = NotTable).
-        { unfold table_info_of, is_table, indent_func_name, first_kid. rewrite Hfk. unfold bk.
+        assert (Hfit : fit (RFuncArgs c (table_info_of self a)) (bt a) = true).
+        { cbn [fit]. unfold is_kind. rewrite Hak. cbn [andb].
+          unfold table_info_of, is_table, indent_func_name, first_kid. rewrite Hfk. unfold bk.
+          unfold args_of_call, last_kid, is_kind in Ea. rewrite Ea in Hnt. cbn [option_map] in Hnt.
           destruct (kind_eqb (kind_of (bt cal)) KIdent); [|reflexivity].
-          unfold str_in. destruct (existsb _ TABLE_FUNCS); [discriminate|reflexivity]. }
-        rewrite Eti.
-        eapply post_bind; [apply (sgood_call a (RFuncArgs c NotTable) Hga Hsa); cbn; unfold is_kind; rewrite Hak; reflexivity|].
+          unfold str_in. destruct (existsb (str_eqb (text_of (bt cal))) TABLE_FUNCS); [|reflexivity].
+          cbn [negb orb] in Hnt. apply andb_prop in Hnt. destruct Hnt as [Hal Hte].
+          destruct (is_formatable a) eqn:Efm; [|exact Hal].
+          destruct (get_table_columns a); [|exact Hal].
+          (* formatable: no comment among the arguments *)
+          unfold is_formatable in Efm. apply andb_prop in Efm. destruct Efm as [Hnc _].
+          unfold is_comment_b in Hnc. rewrite <- (existsb_map_bt is_comment_node), (good_shape _ _ Hga) in Hnc.
+          destruct (existsb is_comment_node (children (bt a))); [discriminate|]. rewrite Bool.orb_false_r in Hte. exact Hte. }
+        eapply post_bind; [apply (sgood_call a _ Hga Hsa Hfit)|].
         intros da Hda. apply post_ret. apply good_append; assumption.
       - destruct (is_math_mode _); [intros n d n' H; discriminate H|].
         eapply post_bind; [apply post_ret; apply good_nil|]. intros da Hda. apply post_ret. apply good_append; assumption. }
@@ -2643,8 +2861,15 @@ Section SigConv.
         | |- post (convert_args _ _ _ _ _) _ =>
             rename Hfit into E; inner_case2 cons_convert_args; apply andb_prop in Hclause; apply Hclause
         | |- post (convert_func_call_args _ _ _ _ _ ?ti) _ =>
-            apply andb_prop in Hfit; destruct Hfit as [E Hti]; apply keq in E; destruct ti; try discriminate Hti;
-            inner_case2 cons_convert_func_call_args
+            apply andb_prop in Hfit; destruct Hfit as [E Hti]; apply keq in E;
+            let Hk := fresh "Hk" in
+            assert (Hk : inner_kind (kind_of t) = true) by (rewrite E; reflexivity);
+            pose proof (node_clause t kids Hshape Hsc Hk) as Hclause; rewrite E in Hclause; cbn [knode_ok] in Hclause;
+            rewrite (tsig_kids t kids Hshape Hk Hsc); rewrite <- Hshape in Hti;
+            destruct ti;
+            [ apply cons_convert_func_call_args; [exact Hgood|apply (kids_scope t kids Hshape Hsc); exact Hk|exact Hclause]
+            | apply andb_prop in Hclause; apply cons_func_call_args_nocols; [exact Hgood|apply (kids_scope t kids Hshape Hsc); exact Hk|exact Hti|apply Hclause]
+            | apply andb_prop in Hclause; apply cons_func_call_args_cols; [exact Hgood|apply (kids_scope t kids Hshape Hsc); exact Hk|exact Hti|apply Hclause] ]
         | |- post (convert_parenthesized_args _ _ _ _ _) _ =>
             apply andb_prop in Hfit; destruct Hfit as [E Hpo]; apply keq in E;
             let Hk := fresh "Hk" in
